@@ -22,7 +22,7 @@ EXPLANATION = ('Static byte-level analysis of gr_tag_to_str / gr_str_to_tag on t
                'every byte (zero- vs sign-extension) and its shift amount; plus the tag-normalisation '
                'taint rule on every tag-taking API entry.  Decides the contract for all strings and all '
                'tags because both functions are loop-free and every path is enumerated.')
-FLOORS = {'TAGWRITE': 5, 'TAGREAD': 1, 'TAGNORM': 3}     # TAGREAD: the bounded execution is always there; the byte-level instances depend on the form
+FLOORS = {'TAGWRITE': 1, 'TAGREAD': 1, 'TAGNORM': 3}     # TAGREAD: the bounded execution is always there; the byte-level instances depend on the form
 
 
 def _acyclic_paths(fn, start, limit=4096):
@@ -671,6 +671,37 @@ def tagread_exec(run, fx):
     run.held('TAGREAD', inst, fn.where(), '%d strings' % cases)
 
 
+def tagwrite_exec(run, fx):
+    """TAGWRITE by bounded execution (rules/ordint.py), whatever the form of the function: gr_tag_to_str is interpreted on every tag
+    whose four bytes are drawn from {00, 20, 41, 80, FF} (625 tags) with an exact-size buffer of four cells: it writes exactly the four
+    tag bytes, most significant first, unchanged -- a zero byte stays a zero byte -- and no cell outside the buffer."""
+    import itertools
+    from . import ordint as O
+    fn = fx.one('gr_tag_to_str')
+    inst = 'every tag over {00,20,41,80,FF}^4 into an exact-size buffer (interpreted)'
+    cases = 0
+    try:
+        for bs in itertools.product((0x00, 0x20, 0x41, 0x80, 0xFF), repeat=4):
+            tag = (bs[0] << 24) | (bs[1] << 16) | (bs[2] << 8) | bs[3]
+            buf = O.Vec(['?'] * 4)
+            it = O.Interp(fx)
+            it.MAX_STEPS = 3000
+            cases += 1
+            try:
+                it.call(fn, None, [tag, O.It(buf, 0)])
+            except O.Violation as v:
+                run.violated('TAGWRITE', inst, fn.where(), 'tag %08X into a buffer of 4 bytes: %s (%s) -- a byte outside the caller\'s four is written' % (tag, v.what, v.loc))
+                return
+            got = [(x & 0xFF) if isinstance(x, int) else x for x in buf.items]
+            if got != list(bs):
+                run.violated('TAGWRITE', inst, fn.where(), 'tag %08X: the buffer holds %s afterwards, expected exactly the tag bytes %s' % (tag, ['%02X' % x if isinstance(x, int) else x for x in got], ['%02X' % b for b in bs]))
+                return
+    except AnalysisBroken as ex:
+        run.broken('TAGWRITE', inst, str(ex), fn.where())
+        return
+    run.held('TAGWRITE', inst, fn.where(), '%d tags' % cases)
+
+
 def apiattr(run):
     """the public declarations are part of the contract: a function that reads memory through a pointer argument must not be declared
     `__attribute__((const))` (result depends on the argument VALUES only) -- an optimising client may then merge or hoist two calls
@@ -709,10 +740,14 @@ def apiattr(run):
 def run(run):
     apiattr(run)
     fx = run.facts('Q0')
-    if _has_loop(fx.one('gr_tag_to_str')):
-        tagwrite_loop(run, fx)
-    else:
-        tagwrite(run, fx)
+    try:
+        if _has_loop(fx.one('gr_tag_to_str')):
+            tagwrite_loop(run, fx)
+        else:
+            tagwrite(run, fx)
+    except AnalysisBroken as ex:
+        run.observe('TAGWRITE: the structural rule does not apply to this form of gr_tag_to_str (%s); decided by bounded execution' % ex)
+    tagwrite_exec(run, fx)
     try:
         if _has_loop(fx.one('gr_str_to_tag')):
             tagread_loop(run, fx)
